@@ -14,6 +14,7 @@ import (
 	"sort"
 	"strings"
 	"time"
+	"unicode"
 
 	"golang.org/x/tools/go/callgraph"
 	"golang.org/x/tools/go/callgraph/cha"
@@ -36,17 +37,18 @@ type Config struct {
 
 // Prog is a loaded, type-checked program with SSA.
 type Prog struct {
-	Cfg      Config
-	RepoDir  string
-	Fset     *token.FileSet
-	Pkgs     []*packages.Package // module packages only (sorted by path)
-	AllPkgs  []*packages.Package
-	SSA      *ssa.Program
-	SSAPkg   map[string]*ssa.Package // by import path
-	byPath   map[string]*packages.Package
-	srcFuncs []*ssa.Function // every source-level function of the module incl. anonymous ones
-	Looked   map[string]bool // role names the rules asked for (anchors)
-	LoadSecs float64
+	Cfg         Config
+	RepoDir     string
+	Fset        *token.FileSet
+	Pkgs        []*packages.Package // module packages only (sorted by path)
+	AllPkgs     []*packages.Package
+	SSA         *ssa.Program
+	SSAPkg      map[string]*ssa.Package // by import path
+	byPath      map[string]*packages.Package
+	srcFuncs    []*ssa.Function // every source-level function of the module incl. anonymous ones
+	Looked      map[string]bool // role names the rules asked for (anchors)
+	quietLookup bool
+	LoadSecs    float64
 
 	cgCHA *callgraph.Graph
 	cgVTA *callgraph.Graph
@@ -282,6 +284,14 @@ func (p *Prog) InstrPos(in ssa.Instruction) string {
 //	"pkg/sync.Map.LoadOrStore"              method (pointer or value receiver)
 //
 // The generic origin is returned for generic functions. nil if it does not exist.
+// FuncQuiet is Func without recording the name as an anchor: used for the fall-back lookups of a role whose function was merged into
+// its caller – the caller must stay what it is (possibly a helper analysed as part of ITS caller).
+func (p *Prog) FuncQuiet(q string) *ssa.Function {
+	p.quietLookup = true
+	defer func() { p.quietLookup = false }()
+	return p.Func(q)
+}
+
 func (p *Prog) Func(q string) *ssa.Function {
 	obj := p.FuncObj(q)
 	if obj == nil {
@@ -299,7 +309,9 @@ func (p *Prog) FuncObj(q string) *types.Func {
 	if p.Looked == nil {
 		p.Looked = map[string]bool{}
 	}
-	p.Looked[q] = true
+	if !p.quietLookup {
+		p.Looked[q] = true
+	}
 	dot := strings.LastIndex(q, "/")
 	rest := q
 	dir := ""
@@ -325,6 +337,32 @@ func (p *Prog) FuncObj(q string) *types.Func {
 		if f, ok := scope.Lookup(parts[1]).(*types.Func); ok {
 			return f
 		}
+		// an unexported package-level function that became a method (of the type of its first parameter): the unique method of
+		// that name in the package keeps the role name
+		if nm := parts[1]; nm != "" && !unicode.IsUpper([]rune(nm)[0]) {
+			var found *types.Func
+			n := 0
+			for _, tnm := range scope.Names() {
+				tn, ok := scope.Lookup(tnm).(*types.TypeName)
+				if !ok {
+					continue
+				}
+				named, ok := tn.Type().(*types.Named)
+				if !ok {
+					continue
+				}
+				for i := 0; i < named.NumMethods(); i++ {
+					if m := named.Method(i); m.Name() == nm {
+						found = m
+						n++
+					}
+				}
+			}
+			if n == 1 {
+				nameAlias[found.Origin()] = q
+				return found
+			}
+		}
 	case 3:
 		tn, ok := scope.Lookup(parts[1]).(*types.TypeName)
 		if !ok {
@@ -339,9 +377,20 @@ func (p *Prog) FuncObj(q string) *types.Func {
 				return m
 			}
 		}
+		// … or the reverse: an unexported method that became a package-level function
+		if nm := parts[2]; nm != "" && !unicode.IsUpper([]rune(nm)[0]) {
+			if f, ok := scope.Lookup(nm).(*types.Func); ok {
+				nameAlias[f.Origin()] = q
+				return f
+			}
+		}
 	}
 	return nil
 }
+
+// nameAlias: functions found under the role name of their other form (function ↔ method, see FuncObj): every name-based match
+// (CalleeName, FnName) then sees the role name.
+var nameAlias = map[*types.Func]string{}
 
 // QName gives the role name of a function object: "pkgrel.Recv.Name" / "pkgrel.Name";
 // for packages outside the module the full import path is used ("sync.RWMutex.Lock", "context.Context.Done").
@@ -350,6 +399,9 @@ func QName(f *types.Func) string {
 		return ""
 	}
 	f = f.Origin()
+	if a, ok := nameAlias[f]; ok {
+		return a
+	}
 	pkg := ""
 	if f.Pkg() != nil {
 		pkg = RelPath(f.Pkg().Path())
